@@ -22,6 +22,32 @@ func (p *Prog) inFns(prefixes ...string) func(*ssa.Function) bool {
 	}
 }
 
+// reachFns: like inFns, plus every in-scope function reachable (calls, defers, go statements) from those functions —
+// so that a package-level helper called from the family is covered too.
+func (p *Prog) reachFns(prefixes ...string) func(*ssa.Function) bool {
+	base := p.inFns(prefixes...)
+	set := map[*ssa.Function]bool{}
+	for _, f := range p.Funcs {
+		if base(f) {
+			for g := range p.reachableFns(f) {
+				set[g] = true
+			}
+			set[f] = true
+		}
+	}
+	// go targets
+	for _, gs := range p.GoSites() {
+		if set[gs.In] {
+			for _, t := range gs.Targets {
+				for g := range p.reachableFns(t) {
+					set[g] = true
+				}
+			}
+		}
+	}
+	return func(f *ssa.Function) bool { return set[f] || set[rootFn(f)] }
+}
+
 // dispatch sites of serve
 func (p *Prog) dispatchSites() []ssa.Instruction {
 	serve := p.serverReadLoopFn()
@@ -222,7 +248,7 @@ func ruleServerNilChecks(c *Ctx, rule string) {
 			entry[fk] = []string{"Header"}
 		}
 	}
-	n := ruleOptionalSubMsgNilChecked(c, rule, p.inFns("goat.handler.", "goat.Server.", "server.", "goat.contextFromHeaders"), entry)
+	n := ruleOptionalSubMsgNilChecked(c, rule, p.reachFns("goat.handler.", "goat.Server.", "server.", "goat.contextFromHeaders"), entry)
 	c.floor(rule, "field accesses through optional sub-messages (server side)", n, 8)
 }
 
